@@ -6,6 +6,7 @@
 import PLV.Model.Proto
 import PLV.Judge
 import PLV.Model.Conc
+import PLV.Model.TextProto
 
 open PLV PLV.Proto
 
@@ -393,6 +394,23 @@ def step (s : DState) (line : String) : DState × String :=
       ({ s with fifo := liveOrder s.q.map s.q.tickets, stale := false },
        "J C19 known stale-ticket")
     else (s, "J C19 bad fifo-contract: got " ++ implOut ++ " expected " ++ s.specOut)
+  | ["txt.show", ty, v] =>
+    match TextProto.showByType ty v with
+    | some t => (s, "txt " ++ TextProto.hexOfString t)
+    | none => bad s line
+  | ["txt.parse", ty, h] =>
+    match TextProto.stringOfHex h with
+    | some t =>
+      (match TextProto.parseByType ty t with
+       | some o => (s, "parsed " ++ o)
+       | none => bad s line)
+    | none => bad s line
+  | ["txt.parse", ty] =>
+    (match TextProto.parseByType ty "" with
+     | some o => (s, "parsed " ++ o)
+     | none => bad s line)
+  | "judge.C16" :: ty :: v :: out => (s, if joinWith " " out == "ok " ++ v then "J C16 ok" else "J C16 bad round-trip " ++ ty)
+  | "judge.C18" :: out => (s, if out.head? == some "PANIC" || out.head? == some "TIMEOUT" then "J C18 bad parser-panicked" else "J C18 ok")
   | ["read", _] => (s, "read")
   | ["state"] => (s, "state " ++ showState s.lvl)
   | [""] => (s, "")
